@@ -9,7 +9,11 @@
    plus a loop dropping unclosed ports under a small RLIMIT_NOFILE.
    round 2: harness/embed_c16.c (bare-context C embedding, address-controlled layouts: layout / frag families, outer + dumps);
    descriptor operations Y U T R Q W XI XO Z in the history language; (G) control skeleton of sexp_mark_weak_extras and the
-   binding of close-file-descriptor."""
+   binding of close-file-descriptor.
+   round 3: immediates as keys / values (I), fresh contexts (N: the gate of the weak pass), ports with the shutdown flag (PS WS) on
+   pipes and socket pairs (S), reference-count scenarios, raw-integer closes against the number-level OS model (YN, nhist),
+   descriptor exhaustion with every kind of dropped port; (G) whole-body pins of the finalisers, the weak-reset walk, the gate
+   and the open-retry loops."""
 import os, re, resource, subprocess, tempfile
 from vlib import build as B
 
@@ -282,6 +286,127 @@ def gen_imm(rng):
     return (ns, ops, "imm" + cls)
 
 
+def gen_raw(rng):
+    """number-level histories (coq/C16/NumOs.v): descriptors closed by raw INTEGER (YN,i: the fileno object R[i] is not told and
+    goes on believing it owns the number), close / dup / dup2 on fileno objects that are already closed (the operations
+    legalise() removes from the other families), followed by opens that reuse the numbers, ports, drops and collections: the
+    finaliser of a stale owner then closes whatever the number names by now.  The implementation must do exactly what the
+    number-level model does: same number of open descriptors after every collection, owners whose number still names the
+    instance opened for them still work (own, Z).  No stream ports, no socket shutdown."""
+    nslots = 8
+    ops = []
+    pipes = []
+    s = lambda: rng.randrange(nslots)
+    for _ in range(rng.randrange(8, 30)):
+        r = rng.random()
+        if r < 0.14:
+            ops.append("F,%d" % s())
+        elif r < 0.26:
+            i, j = rng.sample(range(nslots), 2)
+            ops.append("Q,%d,%d" % (i, j))
+            if rng.random() < 0.5:
+                a, b = rng.sample([x for x in range(nslots) if x not in (i, j)], 2)
+                ops += ["P,%d,%d" % (a, i), "W,%d,%d" % (b, j), "Z,%d,%d" % (a, b)]
+                pipes.append((a, b))
+        elif r < 0.36:
+            ops.append("%s,%d,%d" % (rng.choice(["P", "W", "PS", "WS"]), s(), s()))
+        elif r < 0.50:
+            ops.append("YN,%d" % s())
+        elif r < 0.60:
+            ops.append("Y,%d" % s())
+        elif r < 0.68:
+            ops.append("%s,%d" % (rng.choice(["X", "XI", "XO"]), s()))
+        elif r < 0.74:
+            ops.append("U,%d,%d" % (s(), s()))
+        elif r < 0.79:
+            ops.append("%s,%d,%d" % (rng.choice("TR"), s(), s()))
+        elif r < 0.90:
+            ops.append("D,%d" % s())
+        elif r < 0.93 and pipes:
+            ops.append("Z,%d,%d" % rng.choice(pipes))
+        else:
+            ops.append("G")
+    ops.append("G")
+    for a, b in pipes:
+        ops.append("Z,%d,%d" % (a, b))
+    ops += ["D,%d" % i for i in range(nslots) if rng.random() < 0.7]
+    ops.append("G")
+    return (nslots, ops, "raw")
+
+
+RAW_SCRIPTED = [
+    "6 F,0;YN,0;F,1;G;D,0;G;D,1;G",                                   # the stale owner's finaliser closes the new owner's descriptor
+    "6 F,0;P,1,0;YN,0;Q,2,3;G;D,1;G;D,0;G",
+    "6 Q,0,1;Y,0;Y,0;Q,2,3;Y,0;G;U,4,0;G",                            # second and third close by hand of a closed fileno; dup of it
+    "6 F,0;Y,0;F,1;U,2,0;G;T,0,1;G;T,1,0;G",                          # dup / dup2 of a closed fileno whose number was reused
+    "6 Q,0,1;P,2,0;W,3,1;YN,0;Q,4,5;P,2,4;Z,2,3;G;D,0;G;Z,2,3;G",
+    "8 Q,0,1;P,2,0;W,3,1;Z,2,3;YN,1;Q,4,5;W,6,5;P,7,4;Z,7,6;X,3;Z,7,6;G;Z,7,6",   # closing the stale writer closes the new pipe's write end
+    "6 Q,0,1;T,0,1;Y,0;T,0,1;G;Y,1;T,1,0;F,2;G",                      # dup2 from / onto closed filenos
+]
+
+
+def gen_refcount_scenarios(rng, embed):
+    """scripted: the fileno's reference count.  2 or 3 ports on the read end of a pipe (some with the shutdown flag), one writer; the
+    readers go away one after the other, each in one of the ways a port can end — closed by hand and then collected (the
+    finaliser meets an already closed port), collected while open, closed twice, closed / collected with collections in
+    between — and after each the remaining readers must still receive data; after the last one the descriptor must be gone
+    (count reached 0) even though the fileno object may still be held."""
+    ways = [["X,%d", "D,%d", "G"], ["D,%d", "G"], ["X,%d", "X,%d"], ["X,%d", "G", "D,%d", "G"], ["X,%d", "D,%d"]]
+    hs = []
+    for nread in (2, 3):
+        for w1 in range(len(ways)):
+            for w2 in range(len(ways)):
+                for keep_fileno in (True, False):
+                    if nread == 3 and (w1 + w2 + keep_fileno) % 3:
+                        continue                       # a third of the 3-reader combinations
+                    readers = list(range(2, 2 + nread))
+                    ops = ["Q,0,1"] + ["%s,%d,0" % (rng.choice(["P", "PS"]), r) for r in readers] + ["W,8,1"]
+                    ops += ["Z,%d,8" % r for r in readers]
+                    if not keep_fileno:
+                        ops.append("D,0")
+                    order = list(readers)
+                    rng.shuffle(order)
+                    for k, r in enumerate(order):
+                        w = ways[w1 if k == 0 else w2 if k == 1 else rng.randrange(len(ways))]
+                        ops += [x % r if "%" in x else x for x in w]
+                        ops += ["Z,%d,8" % q for q in order[k + 1:]]
+                        ops.append("G")
+                        ops += ["Z,%d,8" % q for q in order[k + 1:]]
+                    ops += ["F,9", "G", "D,0", "D,9", "G", "X,8", "D,1", "D,8", "G"]
+                    hs.append((10, ops, "refcount"))
+    return hs
+
+
+def cross_models(ctx, exe, hists):
+    """History.v (descriptors named by instance) against NumOs.v (numbers, lowest-free reuse) on the disciplined histories: the
+    two machines must give the same ephemeron observations, the same number of open descriptors and the same owner states at
+    every collection, and on the number level no close may ever hit a number that is not open (ebadf = 0): every close call the
+    model's finalisers and explicit closes issue names the descriptor its owner opened.  This is the executable form of the
+    argument that naming descriptors by instance is sound as long as every close goes through the owner object."""
+    hs = [h for h in hists if not h[2].startswith("raw")]
+    a = ctx.run_model(exe, ["hist %d 20000 %s" % (h[0], ";".join(h[1])) for h in hs])
+    b = ctx.run_model(exe, ["nhist %d 20000 %s" % (h[0], ";".join(h[1])) for h in hs])
+
+    def key(o):
+        if o.startswith("Z"):
+            return o
+        p = o.split("|")
+        return (p[0], [x for x in p if x.startswith("fds=")], [x for x in p if x.startswith("own=")])
+    n = 0
+    for h, x, y in zip(hs, a, b):
+        if not x.startswith("OK"):
+            continue
+        n += 1
+        kx = [key(o) for o in x[3:].split("/")] if x[3:] else []
+        ky = [key(o) for o in y[3:].split("/")] if y.startswith("OK") and y[3:] else []
+        eb = [o for o in y.split("/") if "ebadf=" in o and "ebadf=0" not in o]
+        if kx != ky or eb:
+            ctx.broken("model-consistency:C16:NumOs-vs-History", "on the disciplined history %s the number-level machine answers %s, the instance-level machine %s"
+                       % (hist_line(h), y[:300], x[:300]))
+            break
+    ctx.cov["histories_cross_checked_instance_vs_number_level"] = n
+
+
 def legalise(ctx, exe, hists, rounds=12):
     """remove the operations the model places outside its domain (DOMAIN k: operation k works on the number of a fileno
     object that is already closed), until the model accepts the history"""
@@ -489,7 +614,7 @@ def layout_family(ctx, exe, d, thorough, corpus=()):
     emb = B.cc_embed(d, os.path.join(HERE, "..", "harness", "embed_c16.c"), os.path.join(d, "embed_c16"))
     lay = list(corpus) + gen_layouts(ctx.rng, thorough) + [gen_frag(ctx.rng) for _ in range(12 if not thorough else 400)]
     # round 3: fresh contexts whose first ephemerons have immediate values / keys; two flagged ports on one socket / pipe end
-    lay += [gen_imm(ctx.rng) for _ in range(60 if not thorough else 3000)] + gen_shutdown_scenarios(ctx.rng, True)
+    lay += [gen_imm(ctx.rng) for _ in range(60 if not thorough else 3000)] + gen_shutdown_scenarios(ctx.rng, True) + gen_refcount_scenarios(ctx.rng, True)
     addrs = {}
     outer(ctx, exe, d, "embed", lay, cmd=[emb], addrs=addrs)
     hit, classes = 0, set()
@@ -628,7 +753,8 @@ def classify(mo, io):
 
 
 def model_hist(ctx, exe, hists, fuel=20000):
-    reqs = ["hist %d %d %s" % (h[0], fuel, ";".join(h[1])) for h in hists]
+    # the raw family runs on the number-level machine (coq/C16/NumOs.v: request nhist), everything else on History.v
+    reqs = ["%s %d %d %s" % ("nhist" if h[2].startswith("raw") else "hist", h[0], fuel, ";".join(h[1])) for h in hists]
     outs = ctx.run_model(exe, reqs)
     res = []
     for o in outs:
@@ -688,6 +814,8 @@ def outer(ctx, exe, d, variant, hists, env=None, cmd=None, addrs=None):
         if mo == "DOMAIN":
             continue                       # outside the modelled domain (not legalised): not compared
         nontriv = any(o.startswith("E") for o in h[1]) or any(o[0] in "OFPQWUS" for o in h[1])
+        if h[2].startswith("raw"):
+            ctx.cov["raw_number_level_histories"] = ctx.cov.get("raw_number_level_histories", 0) + 1
         ctx.count(1, key=(variant, hist_line(h), str(env)), nontrivial=nontriv)
         ctx.cov["traces_validated_against_impl"] += 1
         mm = first_mismatch(mo, io)
@@ -1023,7 +1151,15 @@ def run(ctx):
                        "new pipe; layout family on a bare-context C embedding: ephemeron chains of length 2-5 whose objects are placed at "
                        "every relative ADDRESS order of (ephemeron, value, dependent ephemeron, its key) via placeholders and recycled holes, "
                        "values reaching the next key through 0-3 ordinary objects, achieved order read back from the harness and the heap "
-                       "dumps; frag family: descriptor owners and ephemerons behind a large free chunk.")
+                       "dumps; frag family: descriptor owners and ephemerons behind a large free chunk. "
+                       "round 3: immediates (17 #t #\\a '() 0) as keys and values (3% of the random stream; imm family: 60 histories each in a "
+                       "FRESH bare context whose first ephemerons have a heap key + immediate value / an immediate key + heap value / mixtures); "
+                       "ports opened with the shutdown flag on pipes, files and socket pairs (48+32 scripted: two flagged ports on one fileno, "
+                       "one closed or collected, the survivor must transfer data; half of the ports and 40% of the fds histories flagged); "
+                       "66 reference-count scenarios (2-3 readers each ending in one of 5 ways); raw family (7 scripted + 60 random): closes by "
+                       "raw integer, closes/dups/dup2s of closed filenos, against the number-level OS model; every disciplined history is also "
+                       "cross-checked instance-level vs number-level model; descriptor exhaustion: 5 mixes of 10 kinds of dropped port "
+                       "(unflushed /dev/full output, ports on closed filenos, custom ports, ...) under RLIMIT_NOFILE 40-128.")
     d = ctx.build("default")
     from gen import c16_layout
     try:
@@ -1046,7 +1182,12 @@ def run(ctx):
                     ns, ops = line.split(" ", 1)
                     (corpus_embed if f.startswith("embed") else corpus).append((int(ns), ops.split(";"), "corpus:" + f))
     n_def, n_asan, n_sched = (160, 40, 30) if not thorough else (8000, 2000, 2000)
-    hists = legalise(ctx, exe, corpus + gen_fd_scenarios(rng) + gen_shutdown_scenarios(rng, False) + gen_histories(rng, n_def))
+    hists = legalise(ctx, exe, corpus + gen_fd_scenarios(rng) + gen_shutdown_scenarios(rng, False) + gen_refcount_scenarios(rng, False) + gen_histories(rng, n_def))
+    cross_models(ctx, exe, hists)
+    # round 3: raw-integer closes and operations on closed filenos, against the number-level OS model (not legalised)
+    raw = [(int(l.split(" ")[0]), l.split(" ")[1].split(";"), "raw-scripted") for l in RAW_SCRIPTED] + \
+          [gen_raw(rng) for _ in range(60 if not thorough else 4000)]
+    hists += raw
     mobs, iobs = outer(ctx, exe, d, "default", hists)
     for h, m, i in list(zip(hists, mobs, iobs))[len(corpus):len(corpus) + 3]:
         ctx.sample(dict(kind="outer", history=hist_line(h), family=h[2], model=m, impl=i))
@@ -1094,17 +1235,20 @@ def run(ctx):
         ctx.broken("build:asan", str(e)[-800:])
         da = None
     if da:
-        outer(ctx, exe, da, "asan", legalise(ctx, exe, corpus + gen_fd_scenarios(rng)[::3] + gen_shutdown_scenarios(rng, False)[::3] + gen_histories(rng, n_asan)))
+        outer(ctx, exe, da, "asan", legalise(ctx, exe, corpus + gen_fd_scenarios(rng)[::3] + gen_shutdown_scenarios(rng, False)[::3] + gen_refcount_scenarios(rng, False)[::3] + gen_histories(rng, n_asan)) + raw[:20])
         fd_loop(ctx, da, "asan", 2000 if not thorough else 20000)
         fd_loop(ctx, da, "asan", 600 if not thorough else 6000, mix=1, limit=48)
     fd_loop(ctx, d, "default", 20000)
     # round 3: every kind of dropped port, among them ports whose finaliser FAILS (unflushed data on /dev/full), low limit
     for mix in range(1, len(LOOP_MIXES)):
         fd_loop(ctx, d, "default", 3000 if not thorough else 30000, mix=mix, limit=rng.choice([40, 48, 64]))
-    ctx.assume("objects outside the heaps (static, printed 'x' in dumps) are treated as immediates; weak keys are heap objects in every history")
+    ctx.assume("objects outside the heaps (static, printed 'x' in dumps) are treated as immediates; immediates other than #f are one value (Imm) in the Coq model and told apart beside it by the driver (key: never reset; value: reset iff broken)")
     ctx.assume("the collector is the precise one (SEXP_USE_CONSERVATIVE_GC=0): C stack and registers are not roots; the history driver "
                "collects from a call that holds no references and collects twice")
-    ctx.assume("descriptors are named by instance in the model; the implementation is compared on the number of open descriptors in /proc/self/fd")
+    ctx.assume("descriptors are named by instance in History.v (compared on the number of open descriptors in /proc/self/fd and per-owner "
+               "/proc/self/fd identity); the raw family uses the number-level model NumOs.v (lowest-free numbers; stream ports opened after "
+               "a raw close are outside it); shutdown(2) is modelled as releasing nothing (pinned by finalize_port_as_modelled)")
+    ctx.assume("SEXP_USE_UNIFY_FILENOS_BY_NUMBER = 0 (the probe of gen/c16_layout.py fails closed otherwise): sexp_make_fileno never returns an existing object")
     ctx.trust("harness/c16_hist.scm (history interpreter on the real binary) and the dump parser in props/C16.py")
 
 
@@ -1119,12 +1263,14 @@ def replay(ctx, data):
         if not m or exe is None:
             print("not a history (see its 'replay' field):", inp[:200])
             continue
-        h = (int(m.group(1)), m.group(2).split(";"), "replay")
-        dd = d
+        h = (int(m.group(1)), m.group(2).split(";"), case.get("kind") or "replay")
+        dd, cmd = d, None
         if case.get("variant") == "asan":
             dd = ctx.build("asan")
+        if case.get("variant") == "embed":       # the bare-context C embedding (a fresh process = a fresh context)
+            cmd = [B.cc_embed(d, os.path.join(HERE, "..", "harness", "embed_c16.c"), os.path.join(d, "embed_c16"))]
         mo = model_hist(ctx, exe, [h])[0]
-        io = run_impl(dd, [h], timeout=300)[0]
+        io = run_impl(dd, [h], timeout=300, cmd=cmd)[0]
         mm = first_mismatch(mo, io)
         print("history:", inp)
         print("  model:", mo)
